@@ -268,12 +268,13 @@ def _run_obligation(ob, workroot, keep=False):
         res['trace_choices'] = choices
         res['cfile'] = cfile
     else:
-        missing = [w for w, ok in res['witnesses'].items() if not ok]
         need = ob.get('witnesses')
-        if need is not None:
-            for w in need:
-                if w not in res['witnesses']:
-                    missing.append(w + ' (absent)')
+        if need is None:
+            missing = [w for w, ok in res['witnesses'].items() if not ok]
+        else:
+            # the obligation names the witnesses it depends on; other coverage points are reported but not required
+            missing = [w for w in need if w in res['witnesses'] and not res['witnesses'][w]]
+            missing += [w + ' (absent)' for w in need if w not in res['witnesses']]
         if missing:
             res['verdict'] = 'inconclusive'
             res['reason'] = 'vacuous: witness not reachable: %s' % ', '.join(missing)
